@@ -13,6 +13,7 @@ import (
 	"bytes"
 	"context"
 	"encoding/hex"
+	"errors"
 	"flag"
 	"fmt"
 	"io"
@@ -85,6 +86,13 @@ func joinList(xs []string) string {
 }
 
 func parseTriples(s string) ([]wtriple, error) {
+	if n, ok := strings.CutPrefix(s, "@indegree:"); ok { // compact form of boundaryGraph(n), used in reports and replays
+		k, err := strconv.Atoi(n)
+		if err != nil {
+			return nil, err
+		}
+		return boundaryGraph(k), nil
+	}
 	var ts []wtriple
 	for _, it := range splitList(s) {
 		f := strings.Split(it, ",")
@@ -233,6 +241,18 @@ func acyclic1(T []wtriple) bool {
 
 // selfReferenceRefcount1: some triple b p b with refs(b) == 1.
 func selfReferenceRefcount1(T []wtriple) bool {
+	if len(T) > largeInput {
+		rc := map[string]int{}
+		for _, t := range T {
+			rc[t[2]]++
+		}
+		for _, t := range T {
+			if isB(t[2]) && t[0] == t[2] && rc[t[2]] == 1 {
+				return true
+			}
+		}
+		return false
+	}
 	for _, t := range T {
 		if isB(t[2]) && t[0] == t[2] && refs(T, t[2]) == 1 {
 			return true
@@ -275,9 +295,55 @@ func cycleSearch(T []wtriple) bool {
 }
 
 // cycleAllRefcount1 is the finding predicate; ok=false when the two implementations disagree.
+// Inputs beyond largeInput triples (the in-degree boundary family) use one linear-time search only.
 func cycleAllRefcount1(T []wtriple) (holds, ok bool) {
+	if len(T) > largeInput {
+		return fastCycle(T), true
+	}
 	a, c := acyclic1(T), cycleSearch(T)
 	return c, a == !c
+}
+
+const largeInput = 3000
+
+// fastCycle: linear-time search for a cycle of once-referenced blank nodes (each has one parent).
+func fastCycle(T []wtriple) bool {
+	rc := map[string]int{}
+	for _, t := range T {
+		if isB(t[2]) {
+			rc[t[2]]++
+		}
+	}
+	parent := map[string]string{}
+	for _, t := range T {
+		if isB(t[2]) && rc[t[2]] == 1 {
+			parent[t[2]] = t[0]
+		}
+	}
+	state := map[string]int{} // 1 = on the current path, 2 = done
+	for b := range parent {
+		var path []string
+		x := b
+		for {
+			if state[x] == 1 {
+				return true
+			}
+			if state[x] == 2 {
+				break
+			}
+			p, once := parent[x]
+			if !once {
+				break
+			}
+			state[x] = 1
+			path = append(path, x)
+			x = p
+		}
+		for _, y := range path {
+			state[y] = 2
+		}
+	}
+	return false
 }
 
 func graphTriples(Q []wquad, g string) []wtriple {
@@ -553,6 +619,112 @@ func exportDataset(qs []rdf.Quad, o wopts) []rdfdescription.DatasetResource {
 	return c.drs
 }
 
+// failingWriter accepts `left` resources, then fails (a ResourceWriter / DatasetResourceWriter whose sink broke).
+type failingWriter struct{ left, n int }
+
+var errSink = errors.New("sink failed")
+
+func (w *failingWriter) AddResource(context.Context, rdfdescription.Resource) error {
+	if w.n == w.left {
+		return errSink
+	}
+	w.n++
+	return nil
+}
+
+func (w *failingWriter) AddDatasetResource(context.Context, rdfdescription.DatasetResource) error {
+	if w.n == w.left {
+		return errSink
+	}
+	w.n++
+	return nil
+}
+
+// step of a history script: a0 | a1 | p<opts>.<k> | w<opts>.<k> | f<opts>
+type hstep struct {
+	kind  byte
+	batch int
+	o     wopts
+	k     int
+	src   string
+}
+
+func parseScript(s string) ([]hstep, error) {
+	var out []hstep
+	for _, x := range splitList(s) {
+		st := hstep{src: x}
+		if len(x) < 2 {
+			return nil, fmt.Errorf("bad step %q", x)
+		}
+		st.kind = x[0]
+		var err error
+		switch st.kind {
+		case 'a':
+			st.batch = int(x[1] - '0')
+			if st.batch != 0 && st.batch != 1 {
+				return nil, fmt.Errorf("bad step %q", x)
+			}
+		case 'f':
+			st.o, err = parseOpts(x[1:])
+		case 'p', 'w':
+			os, ks, ok := strings.Cut(x[1:], ".")
+			if !ok {
+				return nil, fmt.Errorf("bad step %q", x)
+			}
+			if st.o, err = parseOpts(os); err == nil {
+				st.k, err = strconv.Atoi(ks)
+			}
+		default:
+			return nil, fmt.Errorf("bad step %q", x)
+		}
+		if err != nil {
+			return nil, err
+		}
+		out = append(out, st)
+	}
+	return out, nil
+}
+
+// histInput: what a history line has added when its last complete export runs, and that export's options.
+func histInput(f []string) (T []wtriple, Q []wquad, o wopts, ok bool) {
+	if len(f) != 4 {
+		return
+	}
+	steps, err := parseScript(f[1])
+	if err != nil {
+		return
+	}
+	lastF := -1
+	for i, st := range steps {
+		if st.kind == 'f' {
+			lastF = i
+		}
+	}
+	if lastF < 0 {
+		return
+	}
+	o = steps[lastF].o
+	for _, st := range steps[:lastF] {
+		if st.kind != 'a' {
+			continue
+		}
+		if f[0] == "oracle.dhist" {
+			qs, err := parseQuads(f[2+st.batch])
+			if err != nil {
+				return
+			}
+			Q = append(Q, qs...)
+		} else {
+			ts, err := parseTriples(f[2+st.batch])
+			if err != nil {
+				return
+			}
+			T = append(T, ts...)
+		}
+	}
+	return T, Q, o, true
+}
+
 func predicatesAgree(graphs ...[]wtriple) bool {
 	for _, T := range graphs {
 		if _, ok := cycleAllRefcount1(T); !ok {
@@ -642,6 +814,94 @@ func workerAnswer(line string) (ans string) {
 		must(e.Close())
 		if !vh.IsomorphicMulti(rdf.TripleList(c.ts).AsQuads(nil), in) {
 			return fmt.Sprintf("violation:buffered-encoder leg: %d triples in, %d out, not isomorphic; out=%s", len(ts), len(c.ts), tb.showTriples(c.ts))
+		}
+		return "ok"
+	case "desc.hist", "oracle.hist":
+		// <script> <triples0> <triples1>: several calls on ONE ResourceListBuilder
+		need(3)
+		steps, err := parseScript(args[0])
+		must(err)
+		var batch [2][]wtriple
+		for i := range batch {
+			batch[i], err = parseTriples(args[1+i])
+			must(err)
+		}
+		rb := rdfdescription.NewResourceListBuilder()
+		var added []rdf.Triple
+		var counts []string
+		var last []rdfdescription.Resource
+		for _, st := range steps {
+			switch st.kind {
+			case 'a':
+				ts := tb.triples(batch[st.batch])
+				rb.Add(ts...)
+				added = append(added, ts...)
+			case 'p': // the consumer breaks out of the iter.Seq after k resources
+				n := 0
+				for range rb.ExportResources(goOpts(st.o)) {
+					if n == st.k {
+						break
+					}
+					n++
+				}
+				counts = append(counts, strconv.Itoa(n))
+			case 'w': // ToResourceWriter returns on the writer's error after k resources
+				fw := &failingWriter{left: st.k}
+				rb.ToResourceWriter(ctx, fw, goOpts(st.o))
+				counts = append(counts, strconv.Itoa(fw.n))
+			case 'f':
+				last = nil
+				for r := range rb.ExportResources(goOpts(st.o)) {
+					last = append(last, r)
+				}
+				counts = append(counts, strconv.Itoa(len(last)))
+				if op == "oracle.hist" {
+					got := rdfdescription.ResourceList(last).NewTriples()
+					if !vh.IsomorphicMulti(got.AsQuads(nil), rdf.TripleList(added).AsQuads(nil)) {
+						return fmt.Sprintf("violation:complete export %q of the history: %d triples added so far, %d out, not isomorphic; out=%s", st.src, len(added), len(got), tb.showTriples(got))
+					}
+				}
+			}
+		}
+		if op == "oracle.hist" {
+			return "ok"
+		}
+		xs := make([]string, len(last))
+		for i, r := range last {
+			xs[i] = tb.showResource(r)
+		}
+		return "ok:" + strings.Join(counts, ",") + "#" + strings.Join(xs, ";")
+	case "oracle.dhist":
+		// the same on ONE DatasetResourceListBuilder: <script> <quads0> <quads1>; p and w both abandon through the writer
+		need(3)
+		steps, err := parseScript(args[0])
+		must(err)
+		var batch [2][]wquad
+		for i := range batch {
+			batch[i], err = parseQuads(args[1+i])
+			must(err)
+		}
+		db := rdfdescription.NewDatasetResourceListBuilder()
+		var added []rdf.Quad
+		for _, st := range steps {
+			switch st.kind {
+			case 'a':
+				qs := tb.quads(batch[st.batch])
+				db.Add(qs...)
+				added = append(added, qs...)
+			case 'p', 'w':
+				db.ToDatasetResourceWriter(ctx, &failingWriter{left: st.k}, goOpts(st.o))
+			case 'f':
+				c := &collectDR{}
+				must(db.ToDatasetResourceWriter(ctx, c, goOpts(st.o)))
+				var got []rdf.Quad
+				for _, dr := range c.drs {
+					got = append(got, dr.NewQuads()...)
+				}
+				if !vh.IsomorphicMulti(got, added) {
+					return fmt.Sprintf("violation:complete export %q of the history: %d quads added so far, %d out, not isomorphic; out=%s", st.src, len(added), len(got), tb.showQuads(got))
+				}
+			}
 		}
 		return "ok"
 	case "desc.exportone", "oracle.exportone":
@@ -932,6 +1192,9 @@ func canon(op, ans string) string {
 		}
 		sort.Strings(gs)
 		return "ok:" + strings.Join(gs, "|")
+	case "desc.hist":
+		a, b, _ := strings.Cut(body, "#")
+		return "ok:" + a + "#" + sortList(b, ";")
 	case "desc.list":
 		a, b, _ := strings.Cut(body, "|")
 		return "ok:" + a + "|" + renumber(b)
@@ -959,7 +1222,11 @@ func nontrivial(line string) bool {
 	if len(f) < 2 {
 		return false
 	}
-	for _, it := range splitList(f[len(f)-1]) {
+	data := splitList(f[len(f)-1])
+	if strings.HasSuffix(f[0], "hist") && len(f) == 4 {
+		data = append(data, splitList(f[2])...)
+	}
+	for _, it := range data {
 		if f[0] == "desc.list" {
 			if isB(it) {
 				return true
@@ -993,8 +1260,11 @@ func (h *harness) flush() {
 	}
 	var mIdx []int
 	var mLines []string
+	var hIdx []int // history lines: one model (the repaired export), asked once the Go answer is known
 	for i, l := range lines {
-		if strings.HasPrefix(l, "desc.") {
+		if strings.HasPrefix(l, "desc.hist ") {
+			hIdx = append(hIdx, i)
+		} else if strings.HasPrefix(l, "desc.") {
 			mIdx, mLines = append(mIdx, i), append(mLines, l)
 		}
 	}
@@ -1030,6 +1300,11 @@ func (h *harness) flush() {
 				vIdx, vLines = append(vIdx, i), append(vLines, vl)
 			}
 		}
+		for _, i := range hIdx {
+			if vl := repairedLine(lines[i], goRes[i]); vl != "" {
+				vIdx, vLines = append(vIdx, i), append(vLines, vl)
+			}
+		}
 		vRes, err := vh.Driver{Path: *driver}.RunParallel(vLines)
 		if err != nil {
 			fmt.Fprintln(os.Stderr, err)
@@ -1051,6 +1326,28 @@ func (h *harness) flush() {
 		}
 		if strings.HasPrefix(op, "oracle.") {
 			h.classify(line, ans)
+			continue
+		}
+		if op == "desc.hist" {
+			mv, ok := modelV[i]
+			if !ok {
+				continue
+			}
+			h.rep.Compared++
+			goH, mvH := canon(op, ans), canon(op, mv)
+			if cycleClass(line) {
+				// with a cycle of once-referenced nodes the number of resources depends on the iteration order of
+				// the second loop, which differs between the exports of one history: only the last one has a hint
+				goH, mvH = lastExportOnly(goH), lastExportOnly(mvH)
+			}
+			if goH != mvH {
+				if _, stillKnown := h.known["cycle-all-refcount-1"]; stillKnown && cycleClass(line) {
+					h.rep.Count("t3:history-on-cyclic-input-before-patch") // the export before the patch: only the one-shot lines apply
+				} else {
+					h.fails = append(h.fails, vh.Case{Kind: "disagreement", Op: line, Go: ans, Model: mv,
+						Detail: "history on one builder (Add / abandoned export / complete export): the last complete export or the numbers of resources handed over differ from Builder.run; input: " + describe(line)})
+				}
+			}
 			continue
 		}
 		m, ok := model[i]
@@ -1094,11 +1391,40 @@ func (h *harness) flush() {
 	}
 }
 
+// lastExportOnly keeps, of a canonical desc.hist answer, the count and the resources of the last export.
+func lastExportOnly(a string) string {
+	body, ok := strings.CutPrefix(a, "ok:")
+	if !ok {
+		return a
+	}
+	counts, res, _ := strings.Cut(body, "#")
+	if k := strings.LastIndex(counts, ","); k >= 0 {
+		counts = counts[k+1:]
+	}
+	return "ok:" + counts + "#" + res
+}
+
 // cycleClass: the line's input (one graph of it) has a cycle of once-referenced blank nodes and Inline is set.
 func cycleClass(line string) bool {
 	f := strings.Fields(line)
 	if len(f) < 3 {
 		return false
+	}
+	if f[0] == "desc.hist" {
+		T, _, _, ok := histInput(f)
+		if !ok {
+			return false
+		}
+		steps, _ := parseScript(f[1])
+		inline := false
+		for _, st := range steps {
+			inline = inline || (st.kind != 'a' && st.o.inline)
+		}
+		if !inline {
+			return false
+		}
+		cyc, _ := cycleAllRefcount1(T)
+		return cyc
 	}
 	o, err := parseOpts(f[1])
 	if err != nil || !o.inline {
@@ -1127,6 +1453,22 @@ func repairedLine(line, goAns string) string {
 	f := strings.Fields(line)
 	if len(f) < 3 {
 		return ""
+	}
+	if f[0] == "desc.hist" {
+		T, _, o, ok := histInput(f)
+		if !ok {
+			return ""
+		}
+		var hint []string
+		if body, isOK := strings.CutPrefix(goAns, "ok:"); isOK {
+			_, res, _ := strings.Cut(body, "#")
+			for _, r := range rootsOf("desc.export", res) {
+				if isB(r[1]) && o.inline && refs(T, r[1]) == 1 {
+					hint = append(hint, r[1])
+				}
+			}
+		}
+		return "desc.hist " + f[1] + " " + joinList(hint) + " " + f[2] + " " + f[3]
 	}
 	o, err := parseOpts(f[1])
 	if err != nil {
@@ -1208,11 +1550,37 @@ func rootsOf(op, body string) [][2]string {
 	return out
 }
 
+// compact rewrites the (very long) lines of the in-degree boundary family into their replayable short form.
+func compact(line string) string {
+	if len(line) < 100000 {
+		return line
+	}
+	f := strings.Fields(line)
+	for i, a := range f {
+		if len(a) > 50000 {
+			if T, err := parseTriples(a); err == nil && len(T) > 0 && triplesArg(boundaryGraph(len(T)-1)) == a {
+				f[i] = "@indegree:" + strconv.Itoa(len(T)-1)
+			}
+		}
+	}
+	return strings.Join(f, " ")
+}
+
+func clip(s string, n int) string {
+	if len(s) > n {
+		return s[:n] + fmt.Sprintf("…(%d more bytes)", len(s)-n)
+	}
+	return s
+}
+
 // describe decodes the statements of a protocol line for humans.
 func describe(line string) string {
 	f := strings.Fields(line)
 	if len(f) < 2 {
 		return line
+	}
+	if strings.HasSuffix(f[0], "hist") && len(f) == 4 {
+		return "script " + f[1] + "; batch 0: " + describe("x "+f[2]) + "; batch 1: " + describe("x "+f[3])
 	}
 	data := f[len(f)-1]
 	if Q, err := parseQuads(data); err == nil && len(Q) > 0 {
@@ -1234,14 +1602,28 @@ func (h *harness) classify(line, ans string) {
 		bad("malformed oracle line")
 		return
 	}
-	o, err := parseOpts(f[1])
-	if err != nil {
+	var o wopts
+	var err error
+	var holds []string
+	var Q []wquad
+	if f[0] == "oracle.hist" || f[0] == "oracle.dhist" {
+		T, Qh, oh, ok := histInput(f)
+		if !ok {
+			bad("malformed history line")
+			return
+		}
+		o = oh
+		// rewrite to the one-shot form for the predicates below
+		if f[0] == "oracle.hist" {
+			f = []string{"oracle.triples", o.String(), triplesArg(T)}
+		} else {
+			f = []string{"oracle.quads", o.String(), quadsArg(Qh)}
+		}
+	} else if o, err = parseOpts(f[1]); err != nil {
 		bad(err.Error())
 		return
 	}
 	// the finding predicates that hold for this input, most specific first
-	var holds []string
-	var Q []wquad
 	switch f[0] {
 	case "oracle.triples", "oracle.exportone":
 		T, err := parseTriples(f[len(f)-1])
@@ -1662,6 +2044,122 @@ func (g *gen) datasets(n, nVariants int) {
 	}
 }
 
+// F6: histories on one builder. For a graph T split into two batches: an export abandoned after k resources
+// (every k up to the number of subjects, by break and by writer error) between or after the Adds, then a
+// complete export; two complete exports in a row; complete exports with different options in a row.
+func (g *gen) historyLines(family string, T []wtriple, full bool) {
+	nsub := len(subjectsOf(T, 1000))
+	splits := []int{len(T)}
+	if len(T) > 1 {
+		splits = append(splits, len(T)/2)
+	}
+	if full && len(T) > 2 {
+		splits = append(splits, 1)
+	}
+	emit := func(script string, b0, b1 []wtriple) {
+		g.h.add(family, "desc.hist "+script+" "+triplesArg(b0)+" "+triplesArg(b1))
+		g.h.add(family, "oracle.hist "+script+" "+triplesArg(b0)+" "+triplesArg(b1))
+	}
+	for _, cut := range splits {
+		b0, b1 := T[:cut], T[cut:]
+		for _, o := range allOpts {
+			if !full && !o.inline {
+				continue // the working set only matters with Inline; the quick tier keeps one non-inline pass below
+			}
+			os := o.String()
+			for k := 0; k <= nsub && k <= 4; k++ {
+				ks := strconv.Itoa(k)
+				emit("a0;p"+os+"."+ks+";a1;f"+os, b0, b1)
+				emit("a0;a1;w"+os+"."+ks+";f"+os, b0, b1)
+				if full {
+					emit("a0;w"+os+"."+ks+";a1;f"+os, b0, b1)
+					emit("a0;a1;p"+os+"."+ks+";f"+os+";f"+os, b0, b1)
+				}
+			}
+			emit("a0;a1;f"+os+";f"+os, b0, b1)
+			emit("a0;f"+os+";a1;f"+os, b0, b1)
+			for _, o2 := range allOpts {
+				if o2 != o {
+					emit("a0;a1;f"+os+";f"+o2.String(), b0, b1)
+					if full {
+						emit("a0;p"+os+".0;a1;f"+o2.String(), b0, b1)
+					}
+				}
+			}
+		}
+		emit("a0;p00.0;a1;f00", b0, b1)
+	}
+}
+
+func (g *gen) datasetHistoryLines(family string, Q []wquad) {
+	cut := len(Q) / 2
+	for _, o := range []wopts{{true, true}, {false, true}} {
+		os := o.String()
+		for k := 0; k <= 3; k++ {
+			g.h.add(family, "oracle.dhist a0;w"+os+"."+strconv.Itoa(k)+";a1;f"+os+" "+quadsArg(Q[:cut])+" "+quadsArg(Q[cut:]))
+			g.h.add(family, "oracle.dhist a0;a1;w"+os+"."+strconv.Itoa(k)+";f"+os+";f"+os+" "+quadsArg(Q[:cut])+" "+quadsArg(Q[cut:]))
+		}
+	}
+}
+
+func (g *gen) histories(nRandom, exhaustiveNodes int) int {
+	for _, s := range shapes() {
+		g.historyLines("F6-histories-shaped", s.T, true)
+		all := make([]wquad, len(s.T))
+		for i, t := range s.T {
+			all[i] = wquad{t[0], t[1], t[2], graphs[1]}
+		}
+		g.datasetHistoryLines("F6-histories-datasets", all)
+		g.datasetHistoryLines("F6-histories-datasets", g.distribute(s.T))
+	}
+	for i := 0; i < nRandom; i++ {
+		g.historyLines("F6-histories-random", g.randomTriples(8), g.r.Chance(25))
+	}
+	// every one-predicate graph over a few blank nodes, rooted at an IRI so that the first loop inlines
+	count := 0
+	n := exhaustiveNodes
+	for mask := 0; mask < 1<<(n*n); mask++ {
+		T := []wtriple{{iris[0], pP, bn[0]}}
+		for e := 0; e < n*n; e++ {
+			if mask>>e&1 == 1 {
+				T = append(T, wtriple{bn[e/n], pP, bn[e%n]})
+			}
+		}
+		count++
+		g.historyLines(fmt.Sprintf("F6-histories-exhaustive-%dnodes", n), T, false)
+	}
+	return count
+}
+
+// F7: in-degree boundaries. One blank node referenced by n triples with distinct IRI subjects (and described by
+// one triple of its own); the reference count decides between AnonResource (0), inlining (1) and a labelled
+// SubjectResource (several), so a narrowed or saturating counter shows at n = 2^8, 2^9, 2^16 (+-1).
+func boundaryGraph(n int) []wtriple {
+	T := make([]wtriple, 0, n+1)
+	for i := 0; i < n; i++ {
+		T = append(T, wtriple{iTok("urn:s" + strconv.Itoa(i)), pP, bn[0]})
+	}
+	return append(T, wtriple{bn[0], pQ, literals[0]})
+}
+
+func (g *gen) boundaries(sizes []int) {
+	for _, n := range sizes {
+		arg := triplesArg(boundaryGraph(n))
+		if n <= 1024 { // the model's association lists are quadratic: the model side takes part up to 2^10
+			g.h.add("F7-indegree-boundary", "desc.build "+arg)
+		}
+		for _, o := range allOpts {
+			if n <= 1024 {
+				g.h.add("F7-indegree-boundary", "desc.export "+o.String()+" "+arg)
+				g.h.add("F7-indegree-boundary", "desc.flatten "+o.String()+" "+arg)
+				g.h.add("F7-indegree-boundary", "desc.hist a0;a1;f"+o.String()+";f"+o.String()+" "+arg+" -")
+			}
+			g.h.add("F7-indegree-boundary", "oracle.triples "+o.String()+" "+arg)
+		}
+		g.h.rep.Count(fmt.Sprintf("indegree:%d", n))
+	}
+}
+
 // F5: NewObjectValueListStatement.
 func (g *gen) lists(n int) {
 	pool := append(append(append([]string(nil), bn[:4]...), iris...), literals...)
@@ -1690,6 +2188,8 @@ func oracleFor(line string) string {
 		return "oracle.exportone " + f[1] + " " + f[2] + " " + f[3]
 	case len(f) == 3 && (f[0] == "desc.dexport" || f[0] == "desc.dflatten"):
 		return "oracle.quads " + f[1] + " " + f[2]
+	case len(f) == 4 && f[0] == "desc.hist":
+		return "oracle.hist " + f[1] + " " + f[2] + " " + f[3]
 	}
 	return ""
 }
@@ -1769,11 +2269,19 @@ func main() {
 			g.random(12000 * *scale)
 			g.datasets(10000**scale, 6**scale)
 			g.lists(3000 * *scale)
+			nh := g.histories(1500**scale, 3)
+			rep.Exhaustive = append(rep.Exhaustive, fmt.Sprintf("histories on one builder (Add, export abandoned after k resources for every k by break and by writer error, Add, complete export; two complete exports in a row; option changes between exports) over all %d one-predicate graphs on 3 blank nodes rooted at an IRI, all shapes, and random graphs", nh))
+			g.boundaries([]int{254, 255, 256, 257, 258, 511, 512, 513, 65535, 65536, 65537})
+			rep.Exhaustive = append(rep.Exhaustive, "in-degree boundaries 254..258, 511..513, 65535..65537 of one blank node under all 4 options (model side up to 513)")
 		} else {
 			g.shaped(2 * *scale)
 			g.random(600 * *scale)
 			g.datasets(600**scale, 1**scale)
 			g.lists(300 * *scale)
+			nh := g.histories(150**scale, 2)
+			rep.Exhaustive = append(rep.Exhaustive, fmt.Sprintf("histories on one builder (Add, export abandoned after k resources for every k by break and by writer error, Add, complete export; two complete exports in a row; option changes between exports) over all %d one-predicate graphs on 2 blank nodes rooted at an IRI, all shapes, and random graphs", nh))
+			g.boundaries([]int{254, 255, 256, 257, 258, 511, 512, 513, 65535, 65536, 65537})
+			rep.Exhaustive = append(rep.Exhaustive, "in-degree boundaries 254..258, 511..513, 65535..65537 of one blank node under all 4 options (model side up to 513)")
 		}
 	}
 	h.flush()
@@ -1783,10 +2291,13 @@ func main() {
 			rep.Hist["t3:go-behaves-as-before-patch"], rep.Hist["t3:go-behaves-as-after-patch"])})
 	}
 
-	for _, c := range h.fails {
-		rep.Add(c)
+	for i := range h.fails {
+		c := &h.fails[i]
+		c.Op, c.Go, c.Model, c.Detail = compact(c.Op), clip(c.Go, 4000), clip(c.Model, 4000), clip(c.Detail, 4000)
+		rep.Add(*c)
 	}
 	for _, c := range h.knowns {
+		c.Op, c.Detail = compact(c.Op), clip(c.Detail, 4000)
 		rep.Add(c)
 	}
 	if err := rep.Write(*out); err != nil {
